@@ -82,6 +82,8 @@ class ExprMixin:
             return T.I(ast[1]), None
         if k == 'bool':
             return T.Bc(ast[1]), None
+        if k == 'str':
+            return self.const_value({'c': ast[1], 'str': True, 't': 'string'}), 'string'
         if k == 'nil':
             return T.ZERO, None
         if k == 'name':
@@ -341,6 +343,20 @@ class ExprMixin:
             x, tn = self.eval(args[0], env)
             full = self.type_from_ast(args[1], env)
             return self.uf_implements(x, full), None
+        if name == 'purecall':
+            # purecall(path/filepath.FromSlash, x): the deterministic model of an allow-listed pure function
+            a0 = args[0]
+            def flat(a):
+                if a[0] == 'name':
+                    return a[1]
+                if a[0] == 'sel':
+                    return flat(a[1]) + '.' + a[2]
+                if a[0] == 'bin' and a[1] == '/':
+                    return flat(a[2]) + '/' + flat(a[3])
+                raise Unsupported('purecall name')
+            fname = flat(a0)
+            vals = [self.eval_int(a, env) for a in args[1:]]
+            return self.pure_uf(fname, vals), None
         if name == 'ptr':
             x, tn = self.eval(args[0], env)
             if isinstance(x, PtrV):
